@@ -70,6 +70,10 @@ func init() {
 		"vfChoice": func(e *Exec, fn *ssa.Function, a []Value) Value {
 			name := argStr(a[0])
 			n := e.argInt(a[1], "vfChoice n")
+			if !e.inputIx[name] {
+				v := e.input(name, 64)
+				return e.ts.Const(64, uint64(e.forkN(v, n, 0)))
+			}
 			v := e.input(name, 64)
 			e.assume(e.ts.Ult(v, e.ts.Const(64, uint64(n))))
 			for i := 0; i < n-1; i++ {
@@ -83,6 +87,10 @@ func init() {
 			name := argStr(a[0])
 			lo := e.argInt(a[1], "vfRange lo")
 			hi := e.argInt(a[2], "vfRange hi")
+			if !e.inputIx[name] {
+				v := e.input(name, 64)
+				return e.ts.Const(64, uint64(int64(lo)+int64(e.forkN(v, hi-lo+1, int64(lo)))))
+			}
 			v := e.input(name, 64)
 			e.assume(e.ts.And(e.ts.Sle(e.ts.Const(64, uint64(lo)), v), e.ts.Sle(v, e.ts.Const(64, uint64(hi)))))
 			for i := lo; i < hi; i++ {
